@@ -74,6 +74,10 @@ def rule_process(rep):
             if s["k"] == "let" and s["pat"]["k"] == "pident" and s.get("init") is not None:
                 env[s["pat"]["name"]] = s["init"]
         key = "Resampler::" + fname
+        rets = [x for x in walk(fn["body"]) if x.get("k") == "return"]
+        rep.ob(R, key + "/always-calls-core", not rets,
+               "the wrapper can return early (line %s) without calling %s: the core call's effects (input consumed, state advanced) are skipped on that path, so the wrapper no longer equals the core call"
+               % ([x.get("ln") for x in rets], inner), loc(fn, rets[0]) if rets else loc(fn))
         frames = [n for n, v in env.items() if self_call(v, "output_frames_next") or self_call(v, "output_frames_max")]
         chans = [n for n, v in env.items() if self_call(v, "nbr_channels")]
         rep.ob(R, key + "/sizes", len(frames) == 1 and len(chans) == 1, "frames := self.output_frames_next() and channels := self.nbr_channels() (found %s, %s)" % (frames, chans), loc(fn))
@@ -138,6 +142,8 @@ def rule_partial(rep):
     for s in st:
         if s["k"] == "let" and s["pat"]["k"] == "pident" and s.get("init") is not None:
             env[s["pat"]["name"]] = s["init"]
+    rets = [x for x in walk(fn["body"]) if x.get("k") == "return"]
+    rep.ob(R, "always-calls-core", not rets, "process_partial_into_buffer can return early (line %s) without calling process_into_buffer" % [x.get("ln") for x in rets], loc(fn))
     frames = [n for n, v in env.items() if self_call(v, "input_frames_next")]
     rep.ob(R, "frames", len(frames) == 1, "frames := self.input_frames_next() (found %s)" % frames, loc(fn))
     if not frames:
@@ -210,8 +216,8 @@ def run(rep):
     rep.guarded("R-C16-process", rule_process)
     rep.guarded("R-C16-partial", rule_partial)
     rep.floor("R-C16-forward", 15)
-    rep.floor("R-C16-process", 10)
-    rep.floor("R-C16-partial", 4)
+    rep.floor("R-C16-process", 12)
+    rep.floor("R-C16-partial", 5)
     rep.clause("R-C16-forward", "each of the 14 VecResampler methods is one resolved call of the same-named Resampler method with its parameters in order and the result returned unchanged (MIR, argument provenance chased through temporaries)")
     rep.clause("R-C16-process", "process / process_partial: sizes from output_frames_next(), zero vectors for active channels and empty ones for masked channels, input and mask forwarded unchanged, all channels truncated to the written count")
     rep.clause("R-C16-partial", "process_partial_into_buffer: zero vectors of input_frames_next() frames, prefix copy of min(len, frames) for Some(x), forwarded with the caller's output and mask")
